@@ -65,7 +65,7 @@ def _extent(prog, fn, memo, depth=0):
     if depth > 6 or fn not in prog.bodies:
         return None
     memo[fn] = None
-    b = prog.bodies[fn]
+    b = prog.body(fn)
     ix = P.BodyIndex(b)
     ext = 0
     sub = {}  # local holding `&data[k..]` -> k
@@ -120,7 +120,7 @@ def bcn_facts(prog):
     for name in sorted(prog.bodies):
         if not re.match(r"^bcn::decode_bc\d+$", name):
             continue
-        b = prog.bodies[name]
+        b = prog.body(name)
         ix = P.BodyIndex(b)
         # the block where the outer closure is built: everything the loop does is behind it
         site = None
@@ -161,7 +161,7 @@ def bcn_facts(prog):
         f["guard_counts_ok"] = bool(gc) and gc[0] == "Mul" and ceil4(gc[1], "arg2") and ceil4(gc[2], "arg3")
         m = re.search(r"\[u32; (\d+)\]", " ".join(l["ty"] for l in b.j["locals"]))
         f["buffer"] = int(m.group(1)) if m else None
-        inner = prog.bodies.get(name + "::{closure#0}::{closure#0}")
+        inner = prog.body(name + "::{closure#0}::{closure#0}")
         if inner is None:
             continue
         adds = [const_int(st["rv"]["b"]) for _b, _s, st in inner.stmts() if st["k"] == "assign" and st["rv"]["k"] == "bin" and st["rv"]["op"] == "AddWithOverflow"]
